@@ -49,6 +49,14 @@ let run (c : s list) : s option =
   | A "valuations_empty" :: _ -> Some (e_vals clause_iter_empty)
   | A "clause_valuations_clone" :: pv :: nv :: k :: _ ->
     Some (e_outcome (fun l -> e_pair e_vals e_vals (iter_split (d_n k) l)) (clause_iter (d_pv pv) (d_n nv)))
+  | A "iter_after_end" :: x :: _ ->
+    let b = d_bdd x in
+    Some (match sat_valuations_iter b, path_iter b with
+        | Ok vs, Ok ps ->
+          let cell l = L [A "P"; A (string_of_int (List.length l)); A "T"] in
+          L [A "L"; cell vs; cell ps; cell vs; cell ps]
+        | (OutOfFuel, _) | (_, OutOfFuel) -> A "FUEL"
+        | _ -> A "PANIC")
   | A "owned_back" :: x :: k :: _ -> Some (e_pair e_bdd e_bdd (owned_back (d_bdd x) (d_n k)))
   (* to_optimized_dnf: the step-faithful model of Model/OptDnf.v (the greedy recursion over the operator models);
      Proofs/OptDnfSem.v proves that on a canonical operand it neither panics nor runs out of fuel and that rebuilding its
